@@ -18,7 +18,7 @@ __CPROVER_ensures((__CPROVER_return_value == sm->m_active_state_ids[region_id]) 
 process_result Transition_execute(type_t tr, fsm_t* sm, uint8_t region_id, event_t event)
 __CPROVER_requires(tr == g_wit)                                                  /*@ob C06,C07,C13.only-the-transition-of-the-active-state-is-executed */
 __CPROVER_requires(g_calls == 0)                                                 /*@ob C13.executed-exactly-once */
-__CPROVER_requires(EV_EQ(event, g_evt))                                          /*@ob C18.same-event-and-payload-dispatched */
+__CPROVER_requires(EV_EQ(event, g_evt))                                          /*@ob C18,C06.same-event-and-payload-dispatched */
 __CPROVER_assigns(g_calls, g_ret)
 __CPROVER_ensures(g_calls == 1 && 0 <= g_ret && g_ret <= 7 && (int)__CPROVER_return_value == g_ret)
 ;
@@ -34,7 +34,7 @@ __CPROVER_ensures(__CPROVER_return_value == (IN_LIST ? g_wit + 1 : 0))
 process_result cell_call(cell_t cell, fsm_t* sm, uint8_t region_id, event_t event)
 __CPROVER_requires(cell == g_wit + 1 && IN_LIST)                                 /*@ob C06,C07,C13.only-the-transition-of-the-active-state-is-executed */
 __CPROVER_requires(g_calls == 0)                                                 /*@ob C13.executed-exactly-once */
-__CPROVER_requires(EV_EQ(event, g_evt))                                          /*@ob C18.same-event-and-payload-dispatched */
+__CPROVER_requires(EV_EQ(event, g_evt))                                          /*@ob C18,C06.same-event-and-payload-dispatched */
 __CPROVER_assigns(g_calls, g_ret)
 __CPROVER_ensures(g_calls == 1 && 0 <= g_ret && g_ret <= 7 && (int)__CPROVER_return_value == g_ret)
 ;
